@@ -188,9 +188,52 @@ def check_comparisons(acc, kind, u, v, x):
         acc.outcomes[('cmp', cls, u == v)] += 1
 
 
+def check_chain(acc, kind, u, v, w, x):
+    """History on ONE object: converted in place u -> v -> w; then it must still convert (copy) to every unit
+    and compare, on either side, like a fresh quantity of the same magnitude."""
+    K = getattr(gu, kind)
+    case = {'kind': 'chain', 'qkind': kind, 'units': [u, v, w], 'x': x}
+    q = K(x, u)
+    try:
+        q.to(v, inplace=True)
+        q.to(w, inplace=True)
+    except ValueError:
+        return
+    acc.transitions += 2
+    exp_w = si.convert(x, kind, u, w)
+    if q.unit != w or si.ulps_apart(float(q.value), exp_w) > 2 * CONV_ULP:
+        acc.violation(f'C05/chain/inplace-twice/{kind}', 'two in-place conversions compose', case,
+                      {'got': [q.value, q.unit], 'expected': [exp_w, w]})
+        return
+    for t in si.UNITS[kind]:
+        r = q.to(t)
+        acc.transitions += 1
+        exp = si.convert(x, kind, u, t)
+        if r.unit != t or si.ulps_apart(float(r.value), exp) > 3 * CONV_ULP:
+            acc.violation(f'C05/chain/convert-after-inplace/{kind}', 'an object converted in place converts on like a fresh one', case,
+                          {'target': t, 'got': r.value, 'expected': exp})
+            return
+    fresh = K(x, u)
+    for name, fn in (OPS.items() if u != w else ()):      # same unit: the library compares exactly, rounding of the chain shows
+        exp = name in ('==', '<=', '>=')
+        for l, r_, side in ((fresh, q, 'right'), (q, fresh, 'left')):
+            acc.transitions += 1
+            if fn(l, r_) is not exp:
+                acc.violation(f'C05/chain/compare-after-inplace/{kind}/{side}', 'an object converted in place compares like a fresh one, on either side', case,
+                              {'op': name, 'converted_operand_on': side, 'got': fn(l, r_), 'expected': exp})
+                return
+    acc.outcomes[('chain', u == w)] += 1
+
+
 def run_shard(shard, tier):
     acc = Acc()
     kind, u = shard['kind'], shard['u']
+    for v in si.UNITS[kind]:
+        for w in si.UNITS[kind]:
+            for x in ((1.5, 3700.0) if tier == 'quick' else (1.5, 3700.0, 9.99e-4, 1.0e6)):
+                check_chain(acc, kind, u, v, w, x)
+                acc.nstates += 1
+                acc.cases += 1
     vals = values(kind, tier)
     for v in si.UNITS[kind]:
         for x in vals:
@@ -212,7 +255,9 @@ def run_shard(shard, tier):
 
 def replay(case):
     acc = Acc()
-    if case['kind'] == 'conv':
+    if case['kind'] == 'chain':
+        check_chain(acc, case['qkind'], *case['units'], case['x'])
+    elif case['kind'] == 'conv':
         check_conversion(acc, case['qkind'], case['u'], case['v'], case['x'])
     elif case['kind'] == 'cmp':
         K = getattr(gu, case['qkind'])
